@@ -21,19 +21,19 @@ CLAIMED = {
     "C02": {
         "text": "bounded symbolic checking: for every address, payload, DF (symbolic per class), both lengths and every "
                 "per-nibble hex case, icao()/adsb.icao()/allcall.icao() return '%06X' % address (AA field or parity XOR "
-                "AP with AP built by the oracle), None for all other formats.",
+                "AP with AP built by the oracle), None for all other formats. History items: the same call on an earlier frame differing in one field first (two-call sequences decided jointly).",
         "design_ref": "DESIGN.md section 5 C02", "note": NOTE, "technique": T_SYMX,
     },
     "C07": {
         "text": "bounded symbolic checking: all 13-bit codes and 12-bit fields as solver variables against the Annex 10 "
                 "Gillham/Q/M oracle, every other frame bit free, DF/TC symbolic; plus a QF_FP lemma that "
-                "int(N*3.28084) in binary64 equals floor(N*328084/100000) for all 12-bit N.",
+                "int(N*3.28084) in binary64 equals floor(N*328084/100000) for all 12-bit N. History items: the same call on an earlier frame differing in one field first (two-call sequences decided jointly).",
         "design_ref": "DESIGN.md section 5 C07", "note": NOTE, "technique": T_SYMX + "; QF_FP lemma for the metric code",
     },
     "C08": {
         "text": "bounded symbolic checking: all 2^13 identity codes (incl. X), FS/DR/IIS/IDS/CA and the DF11 II/SI overlay "
                 "as solver variables with all other bits free and DF symbolic; each decoder returns the field or raises "
-                "RuntimeError outside its formats.",
+                "RuntimeError outside its formats. History items: the same call on an earlier frame differing in one field first (two-call sequences decided jointly).",
         "design_ref": "DESIGN.md section 5 C08", "note": NOTE, "technique": T_SYMX,
     },
     "C10": {
@@ -44,25 +44,25 @@ CLAIMED = {
     "C18": {
         "text": "bounded symbolic checking: uplink_icao inverts the Annex 10 uplink AP construction for every address and "
                 "data bits (both lengths); uf/bds/pr/ic/lockout/uplink_fields equal the Annex 10 field map for every "
-                "UF/RR/DI/SD/PR/IC/CL combination with all other bits free.",
+                "UF/RR/DI/SD/PR/IC/CL combination with all other bits free. History items: the same call on an earlier frame differing in one field first (two-call sequences decided jointly).",
         "design_ref": "DESIGN.md section 5 C18", "note": NOTE, "technique": T_SYMX,
     },
     "C09": {
         "text": "bounded symbolic checking: every TC19 subtype 1-4 field combination and every TC5-8 movement/track code "
                 "with all other bits free; results equal the DO-260B decode, None exactly when unavailable; libm is "
-                "uninterpreted (operands, order and [0,360) normalisation are what is decided).",
+                "uninterpreted (operands, order and [0,360) normalisation are what is decided). History items: the same call on an earlier frame differing in one field first (two-call sequences decided jointly).",
         "design_ref": "DESIGN.md section 5 C09", "note": NOTE, "technique": T_SYMX + "; libm as uninterpreted functions",
     },
     "C11": {
         "text": "bounded symbolic checking: each Comm-B field decoder on a fully symbolic 112-bit frame equals the Doc 9871 "
                 "row (status gate, two's complement, LSB, offset, wrap) within LSB*1e-6; cap17 four bits at a time; "
-                "commb.* object identity.",
+                "commb.* object identity. History items: the same call on an earlier frame differing in one field first (two-call sequences decided jointly).",
         "design_ref": "DESIGN.md section 5 C11", "note": NOTE, "technique": T_SYMX,
     },
     "C13": {
         "text": "bounded symbolic checking: every TC28/29(subtype 0,1)/31/19 status, intent and quality field on a fully "
                 "symbolic frame equals the DO-260A/B layout; look-ups total on their domain and monotone (two-copy "
-                "frames through the real functions).",
+                "frames through the real functions). History items: the same call on an earlier frame differing in one field first (two-call sequences decided jointly).",
         "design_ref": "DESIGN.md section 5 C13", "note": NOTE, "technique": T_SYMX,
     },
 }
